@@ -641,6 +641,8 @@ def rule_tailmeaning(ctx, rep):
                                                                                  "read it without the mutex on a returning path" if unlocked else "read it only under rcu_defer_mutex"))
 
 
+META["explanation"] += " " + 'Also (rounds 10-11): stop flag and queue heads are tested between the sleep announcement and the futex wait; writer / reader agreement on the meaning of queue->tail (published before the callbacks only if no barrier entry point returns from an unlocked read of it).'
+
 RULES = [
     ("C13.tailmeaning", rule_tailmeaning),
     ("C13.codec", rule_codec),
